@@ -8,7 +8,7 @@ from ..common import all_conds, conds_at, mro_methods, nshow, outer_field, paths
 from ..expr import C, SELF, canon, first_diff, norm, show, strip_epochs, walk
 from ..model import AnalysisError
 from ..own import BINF, TABLE, is_bucket
-from .C03 import CTXS, insert_flows
+from .C03 import CTXS, cpaths, insert_flows
 from .C09 import add_alt_shape, sub_counter_once
 
 EXPL = ("Per mutator path: storage is mutated if and only if the counter is updated exactly once, and the counter delta agrees with "
@@ -242,7 +242,7 @@ def check(prog, rep, tier):
         # remove
         rm = prog.method(ctx, "remove")
         okr, seen = True, False
-        for p in paths(prog, ctx, rm):
+        for p in cpaths(prog, ctx, rm):
             if p.exit[0] != "return":
                 continue
             tot = [delta_of(e, "_inserted_elements") for e in counter_events(p, "_inserted_elements")]
@@ -265,10 +265,10 @@ def check(prog, rep, tier):
             rep.ok("C14.cuckoo-remove", f"{ctx}.remove")
         # recount on expansion / load
         se = prog.method(ctx, "_setup_expand")
-        okx = all(any(e.value == C(0) for e in counter_events(p, "_inserted_elements")) for p in paths(prog, ctx, se) if p.exit[0] == "return")
+        okx = all(any(e.value == C(0) for e in counter_events(p, "_inserted_elements")) for p in cpaths(prog, ctx, se) if p.exit[0] == "return")
         if counting:
             ex = prog.method(ctx, "_expand_logic")
-            for p in paths(prog, ctx, ex):
+            for p in cpaths(prog, ctx, ex):
                 evs = p.events
                 su = [i for i, e in enumerate(evs) if e.kind == "call" and e.name == "_setup_expand"]
                 un = [i for i, e in enumerate(evs) if e.kind == "setfield" and e.name == "_CountingCuckooFilter__unique_elements" and e.value == C(0)]
@@ -317,7 +317,7 @@ def check(prog, rep, tier):
     # present-key add of the counting filter
     add = prog.method("CountingCuckooFilter", "add")
     oka, seen = True, False
-    for p in paths(prog, "CountingCuckooFilter", add):
+    for p in cpaths(prog, "CountingCuckooFilter", add):
         inc = [e for e in p.events if e.kind == "call" and e.name == "increment"]
         tot = [delta_of(e, "_inserted_elements") for e in counter_events(p, "_inserted_elements")]
         if inc:
